@@ -106,6 +106,15 @@ def render_strings(k, it: Item, meta, cfg, extra_derives=(), strum_path="strum")
         src.append(render_item(meta["sibling"], dl, bounds=bounds))
     ty = RR.inst(it)
     E = RR.turbofish(it)
+    if getattr(it, "namesakes", False):
+        # USER-WRITTEN inherent functions on the enum named like the trait functions the derives implement: generated code that says
+        # `Self::from_str(s)` / `self.as_ref()` instead of a path on the trait picks these (three agents of round 16 wrote that change)
+        from .defs import generics_decl
+        g_decl, g_where, g_use = generics_decl(it, bounds)
+        src.append("""impl%s %s%s%s {
+    pub fn from_str(_s: &str) -> ::core::result::Result<Self, %s::ParseError> { ::core::result::Result::Err(%s::ParseError::VariantNotFound) }
+    pub fn try_from(_s: &str) -> ::core::result::Result<Self, %s::ParseError> { ::core::result::Result::Err(%s::ParseError::VariantNotFound) }
+}""" % (g_decl, it.ident, g_use, g_where, strum_path, strum_path, strum_path, strum_path))
     src.append(RR.vobs_fn(it))
     vals = meta.get("vals")
     if vals is None:
